@@ -36,6 +36,7 @@ fn checks() -> Vec<Check> {
         sim::c02::check(),
         sim::c03::check(),
         sim::c05::check(),
+        sim::c06::check(),
         sim::c07::check(),
         sim::c10::check(),
     ]
